@@ -485,6 +485,10 @@ def field_mutations(ast, quick_rng=None, budget=None):
                 if c["type"] == b"TOPO" and f in ("henc", "venc", "valence"): a["chunks"][ci]["frozen"] = body[24:]   # the data bytes stay as they were encoded
                 # a bit-packed bool chunk with a smaller count in the same byte is a consistent file (the rest keeps the default)
                 soft = "!soft" if (c["type"] == b"PROP" and ((f == "count" and c.get("ptype") == "b") or (f == "first" and c["count"] == 0))) else ""   # an empty span has no position
+                if c["type"] == b"TOPO" and f == "offset" and c["handles"]:
+                    # the reader adds the offset in 64 bits: the changed file is inconsistent iff some handle leaves the range
+                    lim0 = {1: ast["hdr"]["nv"], 2: 2 * ast["hdr"]["ne"], 3: 2 * ast["hdr"]["nf"]}[c["entity"]]
+                    if any(((x + v) & ((1 << 64) - 1)) >= lim0 for x in c["handles"]): soft = "!oor"
                 out.append(("c%d%s.%s=%d%s" % (ci, tn, f, v, soft), a))
         if c["type"] == b"VERT":
             for i in range(3):
@@ -554,7 +558,7 @@ def expect_reject(label):
         return True
     if f in ("version", "compression"): return True
     if f == "flags": return True if int(label.split("=")[1]) > 1 else None
-    if f == "handle": return True if label.endswith("!oor") else None
+    if f in ("handle", "offset"): return True if label.endswith("!oor") else None
     if f == "default_size":
         return None
     return None
